@@ -240,12 +240,19 @@ def cases(draw):
                 rx["pd"][key] = name
     for p in list(sp["params"]):
         sp["params"][p] = max(0.1, float(sp["params"][p]))
+    # a rate constant in the thousands now and then (parameters are bounded below only): the difference step is then
+    # small against the value it perturbs
+    big = None
+    kparams = sorted({rx["pd"]["k"] for rx in sp["reactions"] if rx["type"] != "general" and isinstance(rx["pd"].get("k"), str)})
+    if kparams and draw(st.integers(0, 4)) == 0:
+        big = draw(st.sampled_from(kparams))
+        sp["params"][big] = float(sp["params"][big]) * draw(st.sampled_from([1e3, 2.5e3, 1e4]))
     state = {s: draw(gen.nice(0.5, 10)) for s in species}
     what = draw(st.sampled_from(["jacobian", "sensitivity"]))
     case = {"kind": "derivative", "spec": sp, "state": state, "what": what, "method": draw(st.sampled_from(METHODS))}
     if what == "sensitivity":
         used = sorted(sp["params"])
-        case["param"] = draw(st.sampled_from(used))
+        case["param"] = big if (big and draw(st.booleans())) else draw(st.sampled_from(used))
     case["warmup"] = draw(st.sampled_from([None, None, "jacobian", "sensitivity"])) if sp["params"] else None
     case["time"] = draw(st.sampled_from([0.0, 0.0, 0.75, 4.0]))     # the rate equations may depend on time explicitly
     return case
